@@ -69,6 +69,8 @@ pub struct PoolEntry {
     pub lr: Option<Rc<Dump>>,
     pub glr: Option<Rc<Dump>>,
     pub cyclic: bool,
+    /// 0 = default whitespace skipping, 2 = Layout rule (whitespace, line and block comments)
+    pub layout_mode: u8,
 }
 
 thread_local! {
@@ -83,7 +85,11 @@ fn build_pool() -> Vec<PoolEntry> {
     while v.len() < 64 && k < 400 {
         k += 1;
         let pool = [Pool::Plain, Pool::Unicode(true), Pool::Overlap][k % 3];
-        let spec = gen::g_bnf(gen::BnfParams { ambiguous_ok: true, pool, ..gen::BnfParams::lr_small() }).new_tree(&mut runner).unwrap().current();
+        let mut spec = gen::g_bnf(gen::BnfParams { ambiguous_ok: true, pool, ..gen::BnfParams::lr_small() }).new_tree(&mut runner).unwrap().current();
+        let layout_mode = if k % 4 == 3 { 2 } else { 0 };
+        if layout_mode != 0 {
+            spec.layout = Some(crate::spec::LayoutKind::WsLineBlock);
+        }
         let text = spec.render();
         let lr = compile(&text, &Cfg::lr()).ok().filter(|d| !crate::compile::has_conflicts(d));
         // the recorded LR reduction-loop finding needs forced resolution; the pool keeps only
@@ -97,7 +103,7 @@ fn build_pool() -> Vec<PoolEntry> {
             continue;
         }
         let cyclic = spec.bnf().is_cyclic();
-        v.push(PoolEntry { spec, lr, glr, cyclic });
+        v.push(PoolEntry { spec, lr, glr, cyclic, layout_mode });
     }
     v
 }
@@ -194,7 +200,7 @@ pub fn c15_replay_case(data: &[u8]) -> Option<serde_json::Value> {
     };
     let input: String = input.chars().take(if use_glr { 24 } else { 200 }).collect();
     let case = crate::props::c15::Case {
-        g: crate::props::common::GCase { spec: e.spec.clone(), tapes: vec![] },
+        g: crate::props::common::GCase { spec: { let mut s = e.spec.clone(); s.layout = None; s }, tapes: vec![], lines: false },
         glr: use_glr,
         ps: false,
         pse: true,
@@ -203,6 +209,7 @@ pub fn c15_replay_case(data: &[u8]) -> Option<serde_json::Value> {
         meta_tape: vec![],
         mutations: vec![],
         badlex: if lexmode == 0 { vec![] } else { vec![(lexmode - 1, k)] },
+        layout_mode: e.layout_mode,
     };
     let _ = Algo::LR;
     serde_json::to_value(case).ok()
